@@ -1,7 +1,7 @@
 (* C09: concrete witnesses (the findings replayed on the faithful model). *)
 From Coq Require Import ZArith List Bool Lia.
 Import ListNotations.
-From Osmo Require Import Gen.C09_consts C09.Model C09.Spec C09.ProofsCoins C09.ProofsDistr C09.ProofsLoop C09.ProofsInv C09.ProofsLife.
+From Osmo Require Import Gen.C09_consts C09.Model C09.Spec C09.ProofsCoins C09.ProofsDistr C09.ProofsLoop C09.ProofsInv C09.ProofsLife C09.ProofsShare C09.ProofsShare2.
 Open Scope Z_scope.
 
 Definition w_cfg : config := mkCfg 0 1 0 3 [1000; 3600000; 10800000; 25200000] [0; 1; 2].
@@ -89,4 +89,84 @@ Lemma w3_thr_positive : thr_positive w3_thr.
 Proof.
   intros d m H. unfold w3_thr, thr_fun in H.
   destruct (Z.to_nat d) as [|[|[|[|[|[|n]]]]]]; cbn in H; try discriminate; inversion H; lia.
+Qed.
+
+(* ------------------------------------------------------------------ statements refuted by the witnesses
+   (the same texts as the Definitions C09_*_full of Properties/C09.v) *)
+Lemma finish_full_refuted :
+  ~ (forall cfg funds ops, cfg_ok cfg -> FinExact (run cfg (init_state funds) ops)).
+Proof. intros H; exact (finexact_refuted (H w_cfg w_funds w_ops w_cfg_ok)). Qed.
+
+Lemma share_full_refuted :
+  ~ (forall cfg funds ops thr s', cfg_ok cfg -> thr_positive thr ->
+     let s := run cfg (init_state funds) ops in
+     after_epoch_end cfg thr s = Ok s' ->
+     forall a d, a <> MODULE -> s_bank s' a d - s_bank s a d = ideal_credit cfg thr s a d).
+Proof.
+  intros H. destruct witness_F2 as (E & D & I & _).
+  specialize (H w_cfg w_funds w2_ops w_thr (epoch_of w_cfg w_thr w2_pre) w_cfg_ok w_thr_positive E 1 0 ltac:(unfold MODULE; lia)).
+  fold w2_pre in H.
+  rewrite D, I in H. clear - H. discriminate H.
+Qed.
+
+Lemma epoch_succeeds_full_refuted :
+  ~ (forall cfg funds ops thr, cfg_ok cfg -> thr_positive thr ->
+     exists s', after_epoch_end cfg thr (run cfg (init_state funds) ops) = Ok s').
+Proof.
+  intros H. destruct (H w_cfg w_funds w3_ops w3_thr w_cfg_ok w3_thr_positive) as (s' & E).
+  fold w3_pre in E. destruct witness_F3 as [W _]. rewrite W in E. clear - E. discriminate E.
+Qed.
+
+Lemma filled_bounds : forall cfg funds ops g, cfg_ok cfg ->
+  let s := run cfg (init_state funds) ops in In g (s_gauges s) -> fill_ok s g.
+Proof.
+  intros cfg funds ops g Hc s Hi. pose proof (I_fill _ (reachable_inv cfg funds ops Hc)) as F.
+  rewrite Forall_forall in F. exact (F g Hi).
+Qed.
+
+(* ------------------------------------------------------------------ non-vacuity *)
+(* a history that meets the hypothesis of the conditional finishing theorem, on which the gauge really pays twice
+   and finishes with 2 of 2 epochs *)
+Definition nv_ops : list op :=
+  [ OGauge 0 false 0 3600000 [(0, 10 ^ 10)] 0 2;
+    OLock 1 0 1000 3600000; OLock 2 0 3000 10800000;
+    OEpoch 86400000 [TVal 1; TNoRoute; TNoRoute; TNoRoute; TNoRoute];
+    OUnlock 1 0;
+    OEpoch 86400000 [TVal 1; TNoRoute; TNoRoute; TNoRoute; TNoRoute] ].
+Lemma nonvacuous_finish :
+  cfg_ok w_cfg /\ all_qualified w_cfg (init_state w_funds) nv_ops /\
+  let s := run w_cfg (init_state w_funds) nv_ops in
+  refs_all (s_fin s) = [1] /\ map g_filled (s_gauges s) = [2] /\
+  map (fun g => amount_of (g_dist g) 0) (s_gauges s) = [10 ^ 10] /\
+  s_bank s 1 0 - w_funds 1 0 = 2500000000 /\ s_bank s 2 0 - w_funds 2 0 = 7500000000.
+Proof.
+  split; [exact w_cfg_ok|]. split; [apply all_qualified_b_spec; vm_compute; reflexivity|].
+  vm_compute. repeat split; reflexivity.
+Qed.
+
+(* two owners, two locks, one 2-epoch gauge: the hypotheses of the share theorem hold, the gauge takes part with
+   qualifying locks, the epoch end succeeds, and the credits are the floors 10^10/2 * 1000/4000 and 10^10/2 * 3000/4000 *)
+Definition nv2_ops : list op :=
+  [ OGauge 0 false 0 3600000 [(0, 10 ^ 10)] 0 2; OLock 1 0 1000 3600000; OLock 2 0 3000 10800000; OTime 86400000 ].
+Definition nv2_pre : state := run w_cfg (init_state w_funds) nv2_ops.
+Lemma nonvacuous_share :
+  cfg_ok w_cfg /\ thr_positive w_thr /\ thr_no_error w_thr /\ consistent_receivers (s_locks nv2_pre) /\
+  (forall g, takes_part nv2_pre g -> share_hyp w_cfg (s_locks nv2_pre) g) /\
+  (exists g, takes_part nv2_pre g /\ g_perp g = false /\ elig (s_locks nv2_pre) g <> [] /\
+             In (g_id g) (refs_all (s_up nv2_pre)) /\ g_start g <= s_now nv2_pre) /\
+  after_epoch_end w_cfg w_thr nv2_pre = Ok (epoch_of w_cfg w_thr nv2_pre) /\
+  ideal_credit w_cfg w_thr nv2_pre 1 0 = 1250000000 /\ ideal_credit w_cfg w_thr nv2_pre 2 0 = 3750000000.
+Proof.
+  split; [exact w_cfg_ok|]. split; [exact w_thr_positive|]. split.
+  { intros d. unfold w_thr, thr_fun. destruct (Z.to_nat d) as [|[|[|[|[|[|n]]]]]]; cbn; discriminate. }
+  split.
+  { intros l1 l2 H1 H2. vm_compute in H1, H2.
+    destruct H1 as [<-|[<-|[]]]; destruct H2 as [<-|[<-|[]]]; vm_compute; intros; congruence. }
+  split.
+  { intros g [Hi _]. vm_compute in Hi. destruct Hi as [<-|[]]. unfold share_hyp. split; [|split; vm_compute; reflexivity].
+    intros remain Hr _. vm_compute in Hr. inversion Hr; subst. vm_compute. reflexivity. }
+  split.
+  { eexists. split; [split; [vm_compute; left; reflexivity|right; vm_compute; split; [reflexivity|discriminate]]|].
+    split; [reflexivity|]. split; [vm_compute; discriminate|]. split; [vm_compute; left; reflexivity|vm_compute; discriminate]. }
+  vm_compute. repeat split; reflexivity.
 Qed.
